@@ -127,6 +127,34 @@ def live_part(lean):
     return bad
 
 
+C_BREAKING = [
+    ("can_do: enabled test inverted", "        if self.is_enabled:\n            if action in self.actions:", "        if not self.is_enabled:\n            if action in self.actions:"),
+    ("can_do: unconfigured action refused", "        can_do = True\n        if self.is_enabled:", "        can_do = False\n        if self.is_enabled:"),
+    ("can_do: disjoint instead of intersecting", "                    self.actions[action].intersection(", "                    self.actions[action].isdisjoint("),
+]
+
+
+def can_do_part(lean):
+    from lib import translate_validators
+    src = open("/repo/nostr_relay/auth.py").read()
+    bad = 0
+    for name, old, new in C_BREAKING:
+        if src.count(old) != 1:
+            print("SKIP   %-45s (pattern occurs %d times in the current source)" % (name, src.count(old)))
+            continue
+        d = tempfile.mkdtemp(prefix="tiemut-")
+        try:
+            os.makedirs(os.path.join(d, "nostr_relay"))
+            open(os.path.join(d, "nostr_relay", "auth.py"), "w").write(src.replace(old, new))
+            r = translate_validators.run_can_do(d, lean)
+        finally:
+            shutil.rmtree(d, ignore_errors=True)
+        ok = bool(r["failed_names"])
+        print("%s %-45s broke %s%s" % ("ok    " if ok else "MISSED", name, r["failed_names"], "" if not r["unavailable"] else " unavailable=%r" % r["unavailable"]))
+        bad += not ok
+    return bad
+
+
 def auth_part(lean):
     from lib import translate_validators
     src = open("/repo/nostr_relay/auth.py").read()
@@ -190,7 +218,7 @@ def validators_part(lean):
 def main():
     lean = os.environ.get("VERIF_LEAN") or os.path.join(HERE, "lean")
     src = open("/repo/nostr_relay/storage/kv.py").read()
-    bad = validators_part(lean) + auth_part(lean) + live_part(lean)
+    bad = validators_part(lean) + auth_part(lean) + live_part(lean) + can_do_part(lean)
     for kind, muts in (("breaking", BREAKING), ("harmless", HARMLESS)):
         for m in muts:
             name, old, new = m[0], m[1], m[2]
